@@ -4,8 +4,8 @@ CONSTANTS
   B = 3
   RecMax = 1
   Bodies <- BodiesAll
-  Kinds <- KindsMC3
-  MaxDepth = 3
+  Kinds <- KindsMC
+  MaxDepth = 2
   Progs <- Programs
 INVARIANT TypeOK
 INVARIANT OutcomeMatches
